@@ -308,3 +308,20 @@ Proof.
   cbn. unfold alloc. destruct (match oracle s with [] => true | b :: _ => b end); intros H; inversion H; subst.
   split; reflexivity.
 Qed.
+
+(* ---- default allocator *)
+Lemma default_trace_length rs : length (default_trace rs) = length rs.
+Proof. apply map_length. Qed.
+
+Lemma default_call_kind r :
+  call_allocs (default_call r) = req_allocs r /\ call_frees (default_call r) = req_frees r.
+Proof. destruct r; split; reflexivity. Qed.
+
+Lemma default_trace_balance rs :
+  length (filter call_allocs (default_trace rs)) = length (filter req_allocs rs) /\
+  length (filter call_frees (default_trace rs)) = length (filter req_frees rs).
+Proof.
+  unfold default_trace. induction rs as [|r rs [IH1 IH2]]; [split; reflexivity|].
+  cbn [map filter]. destruct (default_call_kind r) as [-> ->].
+  split; [destruct (req_allocs r)|destruct (req_frees r)]; cbn [length]; congruence.
+Qed.
